@@ -163,13 +163,19 @@ pub fn decode_block(file: &[u8], offset: u64, codec: u8, depth: usize) -> Result
 pub fn check_block(b: &BlockInfo, iv: Option<usize>) -> Result<(), String> {
     if b.offsets[0] != 0 { return Err(format!("block@{}: first offset slot is {} not 0", b.offset, b.offsets[0])); }
     for w in b.entries.windows(2) { if w[0].0 >= w[1].0 { return Err(format!("block@{}: keys not strictly ascending: {} then {}", b.offset, hex(&w[0].0), hex(&w[1].0))); } }
-    if let Some(iv) = iv {
+    if iv.is_some() {
+        // "one offset per index interval": the interval is not recorded in the file (and a writer may use another one than it was
+        // asked for), so the table must be regular for SOME interval s >= 1: slot j holds the start of entry j*s, no slot is missing
         let n = b.entries.len();
-        let want = if n == 0 { 1 } else { (n - 1) / iv + 1 };
-        if b.offsets.len() != want { return Err(format!("block@{}: {} slots for {} entries at interval {}", b.offset, b.offsets.len(), n, iv)); }
         let mut pos = 0u64; let mut starts = vec![];
         for (k, v) in &b.entries { starts.push(pos); pos += (lebn(k.len()) + lebn(v.len()) + k.len() + v.len()) as u64; }
-        for (j, o) in b.offsets.iter().enumerate() { if n > 0 && *o != starts[j * iv] { return Err(format!("block@{}: slot {} = {} but entry {} starts at {}", b.offset, j, o, j * iv, starts[j * iv])); } }
+        if n == 0 { if b.offsets.len() != 1 { return Err(format!("block@{}: {} slots for an empty block", b.offset, b.offsets.len())); } }
+        else if b.offsets.len() > 1 {
+            let s = match starts.iter().position(|st| *st == b.offsets[1]) { Some(s) if s >= 1 => s, _ => return Err(format!("block@{}: slot 1 = {} is not the start of any entry after the first", b.offset, b.offsets[1])) };
+            let want = (n - 1) / s + 1;
+            if b.offsets.len() != want { return Err(format!("block@{}: {} slots for {} entries at the interval {} its first two slots show", b.offset, b.offsets.len(), n, s)); }
+            for (j, o) in b.offsets.iter().enumerate() { if *o != starts[j * s] { return Err(format!("block@{}: slot {} = {} but entry {} starts at {} (interval {})", b.offset, j, o, j * s, starts[j * s], s)); } }
+        }
     }
     Ok(())
 }
@@ -239,22 +245,26 @@ impl Write for SchedSink {
     }
 }
 /// A source serving reads in short pieces / with interruptions, counting seeks and reads, optionally failing at call k.
+/// the kind every injected source / chunk-storage failure carries: a kind grenad has no reason to produce itself, so that an error
+/// that was re-wrapped (new kind, old text) is told from the component's own error
+pub const INJECTED_KIND: io::ErrorKind = io::ErrorKind::ConnectionReset;
 pub struct SchedSource { pub data: Vec<u8>, pub pos: u64, pub rng: Rng, pub max_piece: usize, pub interrupts: bool, pub fail_at: Option<usize>, pub calls: usize,
-                         pub seeks: usize, pub bytes_read: usize, pub abs_seeks: Vec<u64>, pub write_ok: bool }
+                         pub seeks: usize, pub bytes_read: usize, pub abs_seeks: Vec<u64>, pub write_ok: bool, pub reads_at: Vec<u64> }
 impl SchedSource {
     pub fn new(data: Vec<u8>, seed: u64, max_piece: usize, interrupts: bool) -> SchedSource {
-        SchedSource { data, pos: 0, rng: Rng::new(seed), max_piece, interrupts, fail_at: None, calls: 0, seeks: 0, bytes_read: 0, abs_seeks: vec![], write_ok: true }
+        SchedSource { data, pos: 0, rng: Rng::new(seed), max_piece, interrupts, fail_at: None, calls: 0, seeks: 0, bytes_read: 0, abs_seeks: vec![], write_ok: true, reads_at: vec![] }
     }
-    pub fn reset_counters(&mut self) { self.seeks = 0; self.bytes_read = 0; self.abs_seeks.clear(); }
+    pub fn reset_counters(&mut self) { self.seeks = 0; self.bytes_read = 0; self.abs_seeks.clear(); self.reads_at.clear(); }
 }
 impl Read for SchedSource {
     fn read(&mut self, buf: &mut [u8]) -> io::Result<usize> {
         self.calls += 1;
-        if Some(self.calls) == self.fail_at { return Err(io::Error::new(io::ErrorKind::Other, "injected read failure")); }
+        if Some(self.calls) == self.fail_at { return Err(io::Error::new(INJECTED_KIND, "injected read failure")); }
         if self.interrupts && self.rng.below(3) == 0 { return Err(io::Error::new(io::ErrorKind::Interrupted, "interrupted")); }
         let avail = self.data.len().saturating_sub(self.pos as usize);
         if buf.is_empty() || avail == 0 { return Ok(0); }
         let n = (1 + self.rng.below(self.max_piece as u64) as usize).min(buf.len()).min(avail);
+        self.reads_at.push(self.pos);
         buf[..n].copy_from_slice(&self.data[self.pos as usize..self.pos as usize + n]);
         self.pos += n as u64; self.bytes_read += n;
         Ok(n)
@@ -263,7 +273,7 @@ impl Read for SchedSource {
 impl Seek for SchedSource {
     fn seek(&mut self, p: SeekFrom) -> io::Result<u64> {
         self.calls += 1; self.seeks += 1;
-        if Some(self.calls) == self.fail_at { return Err(io::Error::new(io::ErrorKind::Other, "injected seek failure")); }
+        if Some(self.calls) == self.fail_at { return Err(io::Error::new(INJECTED_KIND, "injected seek failure")); }
         let np = match p { SeekFrom::Start(n) => { self.abs_seeks.push(n); n as i128 } SeekFrom::End(d) => self.data.len() as i128 + d as i128, SeekFrom::Current(d) => self.pos as i128 + d as i128 };
         if np < 0 { return Err(io::Error::new(io::ErrorKind::InvalidInput, "negative seek")); }
         self.pos = np as u64; Ok(self.pos)
@@ -272,7 +282,7 @@ impl Seek for SchedSource {
 impl Write for SchedSource {
     fn write(&mut self, buf: &[u8]) -> io::Result<usize> {
         self.calls += 1;
-        if Some(self.calls) == self.fail_at { return Err(io::Error::new(io::ErrorKind::Other, "injected write failure")); }
+        if Some(self.calls) == self.fail_at { return Err(io::Error::new(INJECTED_KIND, "injected write failure")); }
         if self.interrupts && self.rng.below(3) == 0 { return Err(io::Error::new(io::ErrorKind::Interrupted, "interrupted")); }
         if buf.is_empty() { return Ok(0); }
         let n = 1 + self.rng.below(self.max_piece.min(buf.len()) as u64) as usize;
@@ -281,7 +291,7 @@ impl Write for SchedSource {
         self.data[p..p + n].copy_from_slice(&buf[..n]); self.pos += n as u64;
         Ok(n)
     }
-    fn flush(&mut self) -> io::Result<()> { self.calls += 1; if Some(self.calls) == self.fail_at { return Err(io::Error::new(io::ErrorKind::Other, "injected flush failure")); } Ok(()) }
+    fn flush(&mut self) -> io::Result<()> { self.calls += 1; if Some(self.calls) == self.fail_at { return Err(io::Error::new(INJECTED_KIND, "injected flush failure")); } Ok(()) }
 }
 
 pub fn model(es: &Entries) -> BTreeMap<Vec<u8>, Vec<u8>> { es.iter().cloned().collect() }
